@@ -87,4 +87,48 @@ def signingPower (inp : Input) : Nat :=
 def specLightExact (inp : Input) (valid : Nat → Nat → Bool) (accepted : Bool) : Bool :=
   !wellFormedLight inp valid || (accepted == decide (3 * signingPower inp > 2 * total inp))
 
+/-! ### "exactly when" for trusting verification -/
+
+/-- `i` is THE trusted validator the address `a` refers to: it carries that address and no
+    validator before it does (tendermint sets have distinct addresses; if an address is repeated
+    the first holder is meant) -/
+def isOwner (inp : Input) (i : Nat) (a : List UInt8) : Bool :=
+  (inp.vaddrs[i]? == some a) && (List.range i).all (fun k => inp.vaddrs[k]? != some a)
+
+/-- the address belongs to a trusted validator -/
+def trustedAddr (inp : Input) (a : List UInt8) : Bool := inp.vaddrs.contains a
+
+/-- trusted validator `i` is a signer: some block-commit entry of the commit carries its address -/
+def signerTrusting (inp : Input) (i : Nat) : Bool :=
+  (List.range inp.entries.length).any (fun j => (entry inp j).isCommit && isOwner inp i (entry inp j).addr)
+
+/-- power of the DISTINCT trusted signers (the sum ranges over validator indices) -/
+def trustedSigningPower (inp : Input) : Nat :=
+  sumBelow inp.powers.length (fun i => if signerTrusting inp i then power inp i else 0)
+
+/-- no trusted validator is duplicated among the entries: no later block-commit entry carries the
+    address of the same trusted validator (the code answers such a commit with a "Double vote"
+    ERROR when it reaches the second entry; it does not skip it) -/
+def noDoubleVote (trusted : List UInt8 → Bool) : List Entry → Bool
+  | [] => true
+  | e :: es =>
+    (!(e.isCommit && trusted e.addr) || es.all (fun e' => !(e'.isCommit && e'.addr == e.addr)))
+      && noDoubleVote trusted es
+
+/-- the hypothesis of the "exactly when" clause for trusting verification: every block-commit
+    entry carries a signature, the entries of trusted validators carry VALID signatures of that
+    validator, and no trusted validator is duplicated.  (There is no height: trusting
+    verification does not look at one.) -/
+def wellFormedTrusting (inp : Input) (valid : Nat → Nat → Bool) : Bool :=
+  (List.range inp.entries.length).all (fun j =>
+    !(entry inp j).isCommit ||
+      ((entry inp j).hasSig &&
+        (List.range inp.powers.length).all (fun i => !isOwner inp i (entry inp j).addr || valid i j)))
+  && noDoubleVote (trustedAddr inp) inp.entries
+
+/-- **exactly when (trusting)**: under `wellFormedTrusting`, accepted ⇔ the distinct trusted
+    signers carry STRICTLY MORE THAN ONE THIRD of the trusted set's total power -/
+def specTrustingExact (inp : Input) (valid : Nat → Nat → Bool) (accepted : Bool) : Bool :=
+  !wellFormedTrusting inp valid || (accepted == decide (3 * trustedSigningPower inp > 1 * total inp))
+
 end Lumina.Spec.C03
